@@ -130,12 +130,13 @@ pub fn config_strategy(profile: Profile) -> BoxedStrategy<StoreConfig> {
         Profile::Stall => (
             1u64..5,
             prop_oneof![Just(4096u64), Just(16384), Just(1u64 << 26)],
-            0u64..4,
+            // stall threshold = mandatory threshold + (extra - 2): also BELOW the mandatory threshold
+            0u64..6,
             prop_oneof![Just(0u64), Just(8192), Just(1u64 << 28)],
             prop_oneof![Just(2u64), Just(3), Just(4), Just(6), Just(8), Just(16), Just(64)],
             prop_oneof![Just(8192u64), Just(65536), Just(1u64 << 29)],
         )
-            .prop_map(|(mf, mb, extra, sb_extra, cf, cb)| (mf, mb, mf + extra, if sb_extra == 0 { 1u64 << 40 } else { mb + sb_extra }, cf, cb))
+            .prop_map(|(mf, mb, extra, sb_extra, cf, cb)| (mf, mb, (mf + extra).saturating_sub(2).max(1), if sb_extra == 0 { 1u64 << 40 } else { mb + sb_extra }, cf, cb))
             .boxed(),
     };
     (sizes, thresholds, gc_policy_strategy(), prop_oneof![1 => Just(0u64), 1 => Just(8192u64), 3 => Just(1u64 << 26)], prop_oneof![Just(1u64), Just(2), Just(8)], prop_oneof![5 => Just(17u8), 1 => Just(1u8), 1 => Just(3u8), 1 => Just(40u8)])
@@ -452,6 +453,73 @@ fn mid_flush_hook(site: u32) {
     if let Err(f) = h.mid_flush_probe(site) {
         MID_FLUSH_FAIL.with(|c| *c.borrow_mut() = Some(f));
     }
+}
+
+/// The R-D trigger evaluated on the tree BEFORE a reopen, where the levels are known.  Recovery puts
+/// ssts that overlap in key range and in timestamp range into one strongly connected component
+/// and hence into one level.  For siblings of one level (>= 1) that merely share a boundary key that
+/// is what they were before - harmless.  It goes wrong when the two ssts come from DIFFERENT levels
+/// (or both from level 0, or truly overlap): they end up side by side in one level although their
+/// key ranges overlap or their order by first key is not their order by age.
+pub fn rd_predicate_prestate(levels: &[Vec<SstMetadata>]) -> bool {
+    let mut files: Vec<(usize, &SstMetadata)> = vec![];
+    for (li, l) in levels.iter().enumerate() {
+        for m in l.iter() {
+            files.push((li, m));
+        }
+    }
+    let n = files.len();
+    // union-find over the "same component" relation (key ranges touch and timestamp ranges overlap)
+    let mut parent: Vec<usize> = (0..n).collect();
+    fn find(p: &mut Vec<usize>, x: usize) -> usize {
+        let mut r = x;
+        while p[r] != r {
+            r = p[r];
+        }
+        let mut c = x;
+        while p[c] != r {
+            let next = p[c];
+            p[c] = r;
+            c = next;
+        }
+        r
+    }
+    let touch = |x: &SstMetadata, y: &SstMetadata| x.first_key <= y.last_key && y.first_key <= x.last_key;
+    for a in 0..n {
+        for b in a + 1..n {
+            let ((la, x), (lb, y)) = (files[a], files[b]);
+            let ts_overlap = x.smallest_timestamp <= y.biggest_timestamp && y.smallest_timestamp <= x.biggest_timestamp;
+            if !ts_overlap || !touch(x, y) {
+                continue;
+            }
+            // different levels, or both in level 0: side by side in one level after recovery
+            if la != lb || la == 0 {
+                return true;
+            }
+            // same level: only boundary-sharing siblings are harmless, and only if sorting by first
+            // key keeps their order
+            let strict = x.first_key < y.last_key && y.first_key < x.last_key;
+            if strict || x.first_key == y.first_key {
+                return true;
+            }
+            let (ra, rb) = (find(&mut parent, a), find(&mut parent, b));
+            parent[ra] = rb;
+        }
+    }
+    // A component of boundary-sharing siblings that nothing newer overlaps becomes level 0, where
+    // a point read takes the first hit by biggest timestamp instead of walking the siblings in order.
+    for a in 0..n {
+        let ra = find(&mut parent, a);
+        let members: Vec<usize> = (0..n).filter(|b| find(&mut parent, *b) == ra).collect();
+        if members.len() < 2 || members[0] != a {
+            continue;
+        }
+        let has_newer = (0..n).any(|f| !members.contains(&f) && members.iter().any(|m| touch(files[f].1, files[*m].1) && files[f].1.smallest_timestamp > files[*m].1.biggest_timestamp));
+        if !has_newer {
+            return true;
+        }
+    }
+    false
 }
 
 /// Every entry of one sst file, in order.
@@ -783,6 +851,40 @@ impl<'a> Harness<'a> {
         }
     }
 
+    /// VERIF_TRACE helper: the whole tree with key ranks, and every version of each wrongly read key.
+    pub fn trace_tree_and_wrong_keys(&mut self) {
+        let mut sorted = self.universe.clone();
+        sorted.sort();
+        let rank = |k: &[u8]| match sorted.binary_search_by(|u| u.as_slice().cmp(k)) {
+            Ok(i) => format!("{i}"),
+            Err(i) => format!("{}+", i as i64 - 1),
+        };
+        let levels = self.levels();
+        for (li, l) in levels.iter().enumerate() {
+            for m in l.iter() {
+                eprintln!("     L{li} keys#[{}..{}] ts {}..{} {}", rank(&m.first_key), rank(&m.last_key), m.smallest_timestamp, m.biggest_timestamp, &setsum::Setsum::from_digest(m.setsum).hexdigest()[..8]);
+            }
+        }
+        let keys: Vec<Vec<u8>> = self.universe.iter().cloned().collect();
+        for k in keys.iter() {
+            let want = self.model.get(k).cloned().flatten();
+            let got = self.load(k).ok().and_then(|(g, _)| g);
+            if want == got {
+                continue;
+            }
+            eprintln!("     WRONG read of key #{}: got {} want {}; versions:", rank(k), show_val(&got), show_val(&want));
+            for (li, l) in levels.iter().enumerate() {
+                for m in l.iter() {
+                    if let Ok(es) = dump_sst(&sst_path(&self.root, m)) {
+                        for e in es.iter().filter(|e| &e.0 == k) {
+                            eprintln!("        L{li} {} ts {} {}", &setsum::Setsum::from_digest(m.setsum).hexdigest()[..8], e.1, match &e.2 { Some(v) => format!("value[{}B]", v.len()), None => "tombstone".into() });
+                        }
+                    }
+                }
+            }
+        }
+    }
+
     pub fn should_stall(&self) -> bool {
         self.tree().verif_should_stall()
     }
@@ -992,7 +1094,7 @@ impl<'a> Harness<'a> {
     /// reopened once more first, so that its logs are replayed into ssts (an LsmTree knows nothing
     /// of logs).  Same R-D exclusion as reopen.
     fn switch_surface(&mut self) -> Result<(), Fail> {
-        if !self.ctx.strict && rd_predicate(&self.levels()) {
+        if !self.ctx.strict && rd_predicate_prestate(&self.levels()) {
             self.stats.excluded.push("R-D".into());
             return Ok(());
         }
@@ -1000,7 +1102,7 @@ impl<'a> Harness<'a> {
         self.close();
         if self.surface == Surface::Kvs {
             self.open()?;
-            if !self.ctx.strict && rd_predicate(&self.levels()) {
+            if !self.ctx.strict && rd_predicate_prestate(&self.levels()) {
                 // the replayed log produced an sst that triggers R-D at the next open: stay
                 self.stats.excluded.push("R-D".into());
                 return Ok(());
@@ -1021,7 +1123,7 @@ impl<'a> Harness<'a> {
         // R-D: reopen mis-levels files when two live ssts overlap in key range and timestamp range.
         // The log replayed on open adds one more sst whose timestamps are newer than everything,
         // so the predicate over the current live set is the pre-state predicate.
-        if !self.ctx.strict && rd_predicate(&self.levels()) {
+        if !self.ctx.strict && rd_predicate_prestate(&self.levels()) {
             self.stats.excluded.push("R-D".into());
             return Ok(());
         }
@@ -1614,6 +1716,9 @@ pub fn run_history(ctx: &Ctx, h: &History, probes: Probes, o: &mut Outcome) -> S
             let r = hs.apply(op);
             if trace {
                 eprintln!("op #{i} {:?} -> {} | sst:{} trash:{:?} mani:{:?}", op, hs.shape(), hs.list_dir("sst").len(), hs.list_dir("trash"), hs.list_dir("mani"));
+                if matches!(op, Op::Reopen | Op::SwitchSurface) {
+                    hs.trace_tree_and_wrong_keys();
+                }
             }
             r?;
             let name = format!("op #{i} {}", op_name(op));
